@@ -20,7 +20,7 @@ Where the code deviates from the universally quantified statement the full
 statement is kept as a `def … : Prop`, the proved part is `…_partial`-style
 (here: the theorem with its explicit hypothesis) and a negation witness is
 proved; the oracle of harness/props/c13.py replays the same witnesses on the
-real code (known findings F14-F16).
+real code (known findings F50-F54).
 -/
 import TraitsVerif.Lemmas.ResolvePolicy
 namespace TraitsVerif.Props.C13
@@ -155,11 +155,12 @@ def C13_order_full : Prop :=
 
 /-- A class whose dictionary holds the `Any` trait an earlier *write* to
 `__f__` cached (this is the state reached by `a.__f__ = 1`, see the example). -/
-def dunderWorld : World :=
-  { classes := [{ ctraits := [(['_', '_', 'f', '_', '_'], anyTrait)], prefixes := [([], pythonDefault)], decl := [] }]
-    objs := [{ cls := 0 }] }
+def dunderCls : Cls :=
+  { ctraits := [(['_', '_', 'f', '_', '_'], anyTrait)], prefixes := [([], pythonDefault)], decl := [] }
 
-/-- Negation witness: once any instance of the class has *written* a `__xxx__`
+def dunderWorld : World := { classes := [dunderCls], objs := [{ cls := 0 }] }
+
+/-- Negation witness (known finding F54): once any instance of the class has *written* a `__xxx__`
 name, reads of that name on every instance are dispatched to the cached `Any`
 trait (value `None`) instead of raising AttributeError. -/
 theorem C13_order_fails_dunder_read_after_write : ¬ C13_order_full := by
@@ -170,18 +171,22 @@ theorem C13_order_fails_dunder_read_after_write : ¬ C13_order_full := by
       exact ⟨by decide, by decide⟩
     · intro o ho; simp [dunderWorld] at ho; subst ho; intro e he; simp at he
     · intro c hc; simp [dunderWorld] at hc; subst hc
-      refine ⟨by simp [Sorted], ⟨pythonDefault, by simp⟩, ?_, ?_⟩
-      · intro n t hn; simp at hn
+      refine ⟨by unfold Sorted; decide, ⟨pythonDefault, by decide⟩, ?_, ?_⟩
+      · intro n t hn; simp [dunderCls] at hn
       · intro n t hn _
-        simp only [Map.get_cons, Map.get_nil] at hn
+        simp only [dunderCls, Map.get_cons, Map.get_nil] at hn
         split at hn
         · rename_i heq; cases hn; subst heq; exact ⟨true, by decide⟩
         · cases hn
-  have := h dunderWorld hinv { cls := 0 } _ (by simp [dunderWorld]) (by simp [dunderWorld])
+  have := h dunderWorld hinv { cls := 0 } dunderCls (by simp [dunderWorld]) (by simp [dunderWorld])
     ['_', '_', 'f', '_', '_'] false (.ok anyTrait) (.cls (by decide) (by decide))
+  generalize hr : (Except.ok anyTrait : Except Exc Trait) = r at this
   cases this with
   | inst h' => simp at h'
-  | declared _ h' => simp at h'
+  | declared _ h' => simp [dunderCls] at h'
+  | dunderClass _ _ h' => revert h'; decide
+  | dunderSet _ _ _ _ hs => cases hs
+  | dunderGet _ _ _ _ _ => cases hr
   | wildcard _ _ hdu _ _ _ => revert hdu; decide
 
 /-- The same on a real history: `b.__f__` raises AttributeError, but after
@@ -249,7 +254,7 @@ def lateSubclass : List Op :=
   [.mkClass [0] [(['x', '_'], intTrait)], .new 3, .get 0 ['x', 'y'],
    .mkClass [3] [(['x', 'y', '_'], strTrait)], .new 4]
 
-/-- Negation witness (known finding F14): a class defined after its base was
+/-- Negation witness (known finding F50): a class defined after its base was
 used inherits the base's *resolved* entry `xy ↦ Int` as if it were a declared
 class trait, although its own longest matching wildcard `xy_` says `Str`. -/
 theorem C13_cache_fails_late_subclass : ¬ C13_cache_coherent_full := by
@@ -322,8 +327,9 @@ theorem C13_strict_HasStrictTraits (levels : List (List (Name × Trait))) (name 
     (hown : ∀ l ∈ levels, (ownTraits l).get name = none)
     (hwild : ∀ l ∈ levels, ∀ e ∈ ownPrefixes l, ¬ e.1 <+: name) :
     ClassGov IsDisallow (chain clsHasStrictTraits levels) name ∧ Total (chain clsHasStrictTraits levels) := by
-  refine ⟨chain_classGov (Total_mkClass _ _) hdu ?_ ?_ (mkClass_sorted _ _) hown hwild,
-    chain_total (Total_mkClass _ _) levels⟩
+  have htot : Total clsHasStrictTraits := Total_mkClass _ _
+  have hs : Sorted clsHasStrictTraits.prefixes := mkClass_sorted _ _
+  refine ⟨chain_classGov htot hdu ?_ ?_ hs hown hwild, chain_total htot levels⟩
   · have : clsHasStrictTraits.ctraits = [(traitModified, { kind := .event, tag := 908 }),
         (traitAdded, { kind := .event, validator := some 1, tag := 907 })] := by decide
     rw [this]
@@ -360,8 +366,10 @@ theorem C13_strict_HasPrivateTraits (levels : List (List (Name × Trait))) (name
   have hpf : clsHasPrivateTraits.prefixes = [(traitsCache, { kind := .trait, dflt := .none, tag := 901 }),
       (['_'], { kind := .trait, dflt := .none, tag := 903 }),
       ([], { kind := .disallow, dflt := .undef, tag := 902 })] := by decide
-  refine ⟨fun hpub => ?_, fun hpriv => ?_, chain_total (Total_mkClass _ _) levels⟩
-  · refine chain_classGov (Total_mkClass _ _) hdu hct ?_ (mkClass_sorted _ _) hown hwild
+  have htot : Total clsHasPrivateTraits := Total_mkClass _ _
+  have hs : Sorted clsHasPrivateTraits.prefixes := mkClass_sorted _ _
+  refine ⟨fun hpub => ?_, fun hpriv => ?_, chain_total htot levels⟩
+  · refine chain_classGov htot hdu hct ?_ hs hown hwild
     rw [hpf]
     intro e he hp _
     simp only [List.mem_cons, List.mem_nil_iff, or_false] at he
@@ -369,7 +377,7 @@ theorem C13_strict_HasPrivateTraits (levels : List (List (Name × Trait))) (name
     · subst he; exact absurd hp hlib.2.2
     · subst he; exact absurd hp hpub
     · subst he; rfl
-  · refine chain_classGov (Total_mkClass _ _) hdu hct ?_ (mkClass_sorted _ _) hown hwild
+  · refine chain_classGov htot hdu hct ?_ hs hown hwild
     rw [hpf]
     intro e he hp hmax
     simp only [List.mem_cons, List.mem_nil_iff, or_false] at he
@@ -385,7 +393,7 @@ def C13_strict_full : Prop :=
   ∀ (name : Name) (v : Val), name ≠ traitAdded → name ≠ traitModified → ¬ traitsCache <+: name →
     (run Env.sample World.init [.new 1, .set 0 name v]).2.getLast? = some (.error .traitError)
 
-/-- Negation witness (known finding F16): `HasStrictTraits().__f__ = 1` succeeds —
+/-- Negation witness (known finding F52): `HasStrictTraits().__f__ = 1` succeeds —
 writes to `__xxx__` names are mapped to `Any` before the wildcard table (and
 with it `_ = Disallow`) is consulted. -/
 theorem C13_strict_fails_dunder_write : ¬ C13_strict_full := by
@@ -522,5 +530,124 @@ theorem C13_constant (E : Env) {w : World} (hw : NoDeleg w) {oi : Nat} {name : N
     refine GovDict_run E hw hg hd ?_ ?_ hplain hadd (fun _ _ _ => rfl)
     · intro t d value d' ht _ hk; rw [setattrKind_constant ht.1] at hk; cases hk
     · intro t d v d' ht hdn _ hk; rw [getattrKind_constant ht.1] at hk; cases hk; exact hdn
+
+def constTrait : Trait := { kind := .constant, dflt := .int 9, tag := 7 }
+
+/-- Non-vacuity: `k = Constant(9)` declared two levels up, read through a subclass. -/
+example : (run Env.sample World.init
+    [.mkClass [0] [(['k'], constTrait)], .mkClass [3] [], .new 4, .get 0 ['k'], .set 0 ['k'] (.int 9),
+     .del 0 ['k'], .get 0 ['k']]).2.drop 3 =
+    [.ok (.val (.int 9)), .error .traitError, .error .traitError, .ok (.val (.int 9))] := by decide
+
+/-! ## Event -/
+
+def IsEvent (vd : Option Nat) (t : Trait) : Prop := t.kind = .event ∧ t.validator = vd
+
+/-- A name governed by an `Event` can be written but not read: reading raises
+AttributeError; writing succeeds exactly when the event's validator (if any)
+accepts the value, and raises the validator's error otherwise; deleting is a
+no-op; nothing is ever stored — along **every** history that does not `add_trait`
+another trait of that name to that object. -/
+theorem C13_event_write_only (E : Env) {w : World} (hw : NoDeleg w) {oi : Nat} {name : Name} {vd : Option Nat}
+    (hg : GovAt (IsEvent vd) w oi name) (hd : DictAt w oi name none) (hca : E.classAttr name = none) :
+    (step E w (.get oi name)).2 = .error .attributeError ∧
+    (∀ v, (step E w (.set oi name v)).2 = match vd with
+        | none => .ok .done
+        | some i => (E.validate i 0 v).map (fun _ => Out.done)) ∧
+    (step E w (.del oi name)).2 = .ok .done ∧
+    ∀ ops : List Op, (∀ op ∈ ops, op.Plain) →
+      (∀ op ∈ ops, ∀ t, op = .addTrait oi name t → IsEvent vd t) →
+      NoDeleg (run E w ops).1 ∧ GovAt (IsEvent vd) (run E w ops).1 oi name ∧
+        DictAt (run E w ops).1 oi name none := by
+  refine ⟨?_, ?_, ?_, ?_⟩
+  · obtain ⟨o, c, ho, hc, h⟩ := getattro_outcome E hw hg hd hca
+    rw [step_get_eq E ho hc]
+    rcases h with ⟨h, _⟩ | ⟨t, ht, h⟩
+    · exact h
+    · rw [h, getattrKind_event ht.1]; rfl
+  · intro v
+    obtain ⟨o, c, t, ho, hc, ht, h⟩ := setattro_outcome E hw hg (some v)
+    rw [step_set_eq E ho hc, h, setattrKind_event ht.1, ht.2]
+    cases vd with
+    | none => rfl
+    | some i => simp only; cases E.validate i 0 v <;> rfl
+  · obtain ⟨o, c, t, ho, hc, ht, h⟩ := setattro_outcome E hw hg none
+    rw [step_del_eq E ho hc, h, setattrKind_event ht.1]; rfl
+  · intro ops hplain hadd
+    refine GovDict_run E hw hg hd ?_ ?_ hplain hadd (fun _ _ _ => rfl)
+    · intro t d value d' ht hdn hk; rw [setattrKind_event_dict ht.1 hk]; exact hdn
+    · intro t d v d' ht _ _ hk; rw [getattrKind_event ht.1] at hk; cases hk
+
+def evIntTrait : Trait := { kind := .event, dflt := .undef, validator := some 0, tag := 8 }
+
+/-- Non-vacuity: `e_ = Event(Int)` as a wildcard. -/
+example : (run Env.sample World.init
+    [.mkClass [0] [(['e', '_'], evIntTrait)], .new 3, .set 0 ['e', 'x'] (.int 1), .get 0 ['e', 'x'],
+     .set 0 ['e', 'x'] (.str "a"), .del 0 ['e', 'x']]).2.drop 2 =
+    [.ok .done, .error .attributeError, .error .traitError, .ok .done] := by decide
+
+/-! ## HasPrivateTraits: private names -/
+
+/-- A name governed by the untyped private `Any` of `HasPrivateTraits` (see
+`C13_strict_HasPrivateTraits`): initial value `None`, any value accepted. -/
+theorem C13_private_untyped (E : Env) {w : World} (hw : NoDeleg w) {oi : Nat} {name : Name}
+    (hg : GovAt IsPrivateAny w oi name) (hd : DictAt w oi name none) (hca : E.classAttr name = none) :
+    (step E w (.get oi name)).2 = .ok (.val .none) ∧
+    (∀ v, (step E w (.set oi name v)).2 = .ok .done) := by
+  refine ⟨?_, ?_⟩
+  · obtain ⟨o, c, ho, hc, h⟩ := getattro_outcome E hw hg hd hca
+    rw [step_get_eq E ho hc]
+    rcases h with ⟨_, hP | hP⟩ | ⟨t, ht, h⟩
+    · exact absurd hP (by unfold IsPrivateAny; decide)
+    · exact absurd hP (by unfold IsPrivateAny; decide)
+    · rw [h, ht, getattrKind_trait rfl]; rfl
+  · intro v
+    obtain ⟨o, c, t, ho, hc, ht, h⟩ := setattro_outcome E hw hg (some v)
+    rw [step_set_eq E ho hc, h, ht, setattrKind_trait_untyped rfl rfl]; rfl
+
+/-! ## remove_trait restores the class-level rule -/
+
+/-- Whatever happens in between — in particular `add_trait` of arbitrary
+instance traits for that name — after `remove_trait(name)` the name has no
+instance trait and every get / set / del of it is dispatched to a trait
+satisfying the class-level rule `P` that held before (instantiate `P` with
+`IsDisallow`, `IsReadOnly`, `IsConstant k`, `IsEvent vd`, … to get the policy
+theorems above back). `remove_trait` returns whether an instance trait existed. -/
+theorem C13_remove_restores (E : Env) {P : Trait → Prop} {w : World} (hw : NoDeleg w) {oi : Nat} {name : Name}
+    (hc : ClassGovAt P w oi name) (ops : List Op) (hplain : ∀ op ∈ ops, op.Plain) :
+    GovAt P (run E w (ops ++ [.removeTrait oi name])).1 oi name ∧
+    NoDeleg (run E w (ops ++ [.removeTrait oi name])).1 ∧
+    ∃ o o', (run E w ops).1.objs[oi]? = some o ∧
+      (run E w (ops ++ [.removeTrait oi name])).1.objs[oi]? = some o' ∧
+      o'.itraits.get name = none ∧
+      (step E (run E w ops).1 (.removeTrait oi name)).2 = .ok (.bool (o.itraits.get name).isSome) := by
+  have hw1 := NoDeleg_run E hw hplain
+  have hc1 := ClassGovAt_run E hw hc hplain
+  rw [run_snoc]
+  obtain ⟨o, c, ho, hcc, _, _⟩ := hc1
+  obtain ⟨o', ho', hi', _, _, hret, _⟩ := step_removeTrait_spec E ho hcc name
+  obtain ⟨o2, c2, ho2, hc2, hcg2, htot2⟩ := ClassGovAt_step E hw1 ⟨o, c, ho, hcc, ‹_›, ‹_›⟩ (.removeTrait oi name)
+  rw [ho'] at ho2; cases ho2
+  refine ⟨⟨o', c2, ho', hc2, ?_, hcg2, htot2⟩, NoDeleg_step E hw1 trivial, o, o', ho, ho', hi', hret⟩
+  intro t ht; rw [hi'] at ht; cases ht
+
+def disTrait : Trait := { kind := .disallow, dflt := .undef, tag := 9 }
+
+/-- Non-vacuity: a strict class; an instance trait makes `u` usable; after
+`remove_trait` the class-level `Disallow` governs again (and the value is gone). -/
+example : (run Env.sample World.init
+    [.mkClass [1] [], .new 3, .set 0 ['u'] (.int 1), .addTrait 0 ['u'] intTrait, .set 0 ['u'] (.int 3),
+     .get 0 ['u'], .removeTrait 0 ['u'], .get 0 ['u'], .set 0 ['u'] (.int 1), .removeTrait 0 ['u']]).2.drop 2 =
+    [.error .traitError, .ok .done, .ok .done, .ok (.val (.int 3)), .ok (.bool true),
+     .error .attributeError, .error .traitError, .ok (.bool false)] := by decide
+
+/-- Known finding F51, in the model as in the code: a value assigned *before*
+`add_trait` stays readable through the `__dict__` short cut of
+`has_traits_getattro`, whatever the new instance trait says (here an `Event`
+and a `Disallow`); this is why the read clauses above carry `DictAt … none`. -/
+example : (run Env.sample World.init
+    [.new 0, .set 0 ['x'] (.int 5), .addTrait 0 ['x'] evIntTrait, .get 0 ['x'],
+     .addTrait 0 ['x'] disTrait, .get 0 ['x']]).2.drop 3 =
+    [.ok (.val (.int 5)), .ok .done, .ok (.val (.int 5))] := by decide
 
 end TraitsVerif.Props.C13
